@@ -236,6 +236,14 @@ func VH_C17_Slice() {
 		vReach("converts")
 	} else {
 		vAssert(err != nil, "C17: an element rejected by strconv but the parse succeeded")
+		first := -1
+		for i, t := range texts {
+			if _, e := strconv.ParseInt(t, 0, 8); e != nil && first < 0 {
+				first = i
+			}
+		}
+		pe, ok := err.(Error)
+		vAssert(ok && pe.Position() == toks[first].Pos, "C17: conversion error of a slice element is not a participle.Error located at the captured token")
 		vReach("rejects")
 	}
 }
@@ -259,6 +267,14 @@ func VH_C17_USlice() {
 		vReach("converts")
 	} else {
 		vAssert(err != nil, "C17: an element rejected by strconv but the parse succeeded")
+		first := -1
+		for i, t := range texts {
+			if _, e := strconv.ParseUint(t, 0, 16); e != nil && first < 0 {
+				first = i
+			}
+		}
+		pe, ok := err.(Error)
+		vAssert(ok && pe.Position() == toks[first].Pos, "C17: conversion error of a slice element is not a participle.Error located at the captured token")
 		vReach("rejects")
 	}
 }
